@@ -182,15 +182,17 @@ class Ctx:
     def quick(self):
         return self.tier == "quick"
 
-    def pmap(self, fn, args, nproc=None):
-        """Run fn(arg)->Result over args on a fork pool and merge in order."""
+    def pmap(self, fn, args, nproc=None, fresh=False):
+        """Run fn(arg)->Result over args on a fork pool and merge in order.
+        fresh=True: every shard runs in its own newly forked process (for shards that define classes or otherwise
+        leave marks in the library's registries)."""
         args = list(args)
         nproc = min(nproc or NPROC, max(1, len(args)))
-        if nproc == 1:
+        if nproc == 1 and not fresh:
             outs = [_shard_entry((fn, a)) for a in args]
         else:
             mp = multiprocessing.get_context("fork")
-            with mp.Pool(nproc) as pool:
+            with mp.Pool(nproc, maxtasksperchild=1 if fresh else None) as pool:
                 outs = pool.map(_shard_entry, [(fn, a) for a in args], chunksize=1)
         for kind, payload in outs:
             if kind == "ok":
